@@ -315,6 +315,10 @@ class Sim:
         self.cur = st
         try:
             if not self.aborting:
+                if getattr(self, "trace_modules", None):
+                    # every source line of the named (small, lock-free) modules is a scheduling point for this thread:
+                    # a thread switch between two plain statements, which the primitives alone cannot produce
+                    sys.settrace(self._tracer)
                 run()
         except SimAbort:
             pass
@@ -326,6 +330,17 @@ class Sim:
             if not self.aborting:
                 self.ev("ThreadExit")
             self._switch_from(st)
+
+    def _tracer(self, frame, event, arg):
+        if event == "call" and frame.f_globals.get("__name__") in self.trace_modules:
+            return self._line_tracer
+        return None
+
+    def _line_tracer(self, frame, event, arg):
+        if event == "line" and not self.aborting and self.cur is not None and self.by_py.get(_real_threading.current_thread()) is self.cur:
+            self.n_line_points = getattr(self, "n_line_points", 0) + 1
+            self.yield_point()
+        return self._line_tracer
 
     def spawn(self, fn, name):
         """start a caller thread running fn() under the simulation"""
@@ -635,6 +650,12 @@ class SimPort:
             s.ev("WriteErr", why="closed", data=list(data))
             raise self._serial.PortNotOpenError()
         idx = len(self.writes)
+        once = getattr(self, "write_fail_once_at", None)
+        if once is not None and idx >= once:
+            # a transient failure: this one write fails after its first bytes went out, later ones work again
+            self.write_fail_once_at = None
+            s.ev("WriteErr", why="io-once", data=list(data))
+            raise self._serial.SerialException("write failed")
         if self.write_error_at is not None and idx >= self.write_error_at:
             s.ev("WriteErr", why="io", data=list(data))
             raise self._serial.SerialException("write failed")
@@ -721,10 +742,31 @@ class Device:
                     data = b""
                 else:
                     data = data[:room]
+            before = self.n_bytes
             self.n_bytes += len(data)
             if data:
-                self.port.rx.extend(data)
                 (self.sim.decoy_events if self.decoy else self.sim.events).append({"t": self.sim.now, "th": "device", "k": "DevEmit", "data": list(data), "cause": cause})
+                h = getattr(self, "hold", None)
+                if h is not None and h.get("until") is None and before < h["after_bytes"] <= self.n_bytes:
+                    # the reader (or the OS) stalls in the middle of a line: what follows reaches the port in one burst
+                    cut = h["after_bytes"] - before
+                    self.port.rx.extend(data[:cut])
+                    h["until"] = self.sim.now + h["for_us"]
+                    h["buf"] = bytearray(data[cut:])
+                    port = self.port
+
+                    def release():
+                        if gen == self.gen and not self.dead:
+                            port.rx.extend(bytes(h["buf"]))
+                            (self.sim.decoy_events if self.decoy else self.sim.events).append({"t": self.sim.now, "th": "device", "k": "DevRelease", "n": len(h["buf"])})
+                        h["buf"] = bytearray()
+                        h["done"] = True
+
+                    self.sim.at(h["until"], release)
+                elif h is not None and h.get("until") is not None and not h.get("done"):
+                    h["buf"].extend(data)
+                else:
+                    self.port.rx.extend(data)
             if self.eof_after_bytes is not None and self.n_bytes >= self.eof_after_bytes:
                 self.fault("eof")
 
